@@ -340,6 +340,12 @@ func (c *client) connect1(ctx async.Context) (internalConn, status.Status) {
 
 	// Return if connected
 	if st.OK() {
+		// The new connection can be closed already. In that case onConnClosed has seen
+		// this routine as still connecting and has not started another one.
+		if c.mode == ClientMode_AutoConnect && c.conns.Load().len() == 0 && !c.closed_.IsSet() {
+			routine := async.Run(c.connect1)
+			c.connecting.Set(routine)
+		}
 		return conn, st
 	}
 
